@@ -475,7 +475,6 @@ class Finding(object):
 
 def compare_required(segs, data, outcome, oracle, clause="required"):
     """-> (list of Finding, agreed: bool)"""
-    sk = kinds_sig(segs)
     if isinstance(oracle, Q.SpecRaises):
         # the oracle expects a library exception here (always a from-code rule)
         if outcome[0] == "yamlpath":
@@ -540,7 +539,7 @@ def compare_required(segs, data, outcome, oracle, clause="required"):
                         describe(outcome), describe_oracle(oracle))], False
     if outcome[0] == "unmatched":
         dc = "unmatched"
-    return [Finding("witness", "%s/unexplained/%s/%s" % (PROP, dc, localize(segs, data)),
+    return [Finding("witness", "%s/unexplained/%s" % (PROP, localize(segs, data)),
                     "the selected node sequence differs from the documented selection (%s)" % dc, clause,
                     describe(outcome), describe_oracle(oracle))], False
 
@@ -569,7 +568,7 @@ def localize(segs, data):
         s = prefix[-1]
         kind = ("search" + ("." if s[2] == "." else "@") + ("!" if s[1] else "")) if s[0] == "search" else s[0]
         if s[0] in ("all", "trav"):
-            kind += "-last" if j == len(segs) or True else ""
+            kind += "-last"      # a prefix ending in '*'/'**' is evaluated in its last-segment form
         kinds = sorted(set(_node_kind(r.node) for r in before))
         return "%s@%s" % (kind, "+".join(kinds))
     s = segs[-1]
@@ -645,7 +644,6 @@ def check_case(data, segs, fresh_loader=None, plain0=None):
     reloaded = None
     opt_sig = "-"
     if agreed and not isinstance(oracle, Q.SpecRaises) and len(oracle):
-        culprit = None
         if "virtual-continuation" in oracle.from_code:
             # optional-mode continuation past a virtual result is defined nowhere
             findings.append(Finding("oos", "optional/virtual-continuation-undefined", "", "optional"))
@@ -718,7 +716,6 @@ def check_case(data, segs, fresh_loader=None, plain0=None):
 
 DOCSETS = {}       # name -> list of templates (filled in run() before forking)
 VOCAB = []
-VOCAB2 = []        # thorough: extra first/second segments
 
 
 def _paths_for(unit, doc_index, seed):
@@ -881,6 +878,10 @@ def run(tier="quick", seed=0, jobs=None):
     units += _units("random", nrandom, 250, paths="random")
     # spread heavy and light units
     random.Random(seed).shuffle(units)
+    frac = float(os.environ.get("VERIF_UNIT_FRACTION", "1"))      # smoke runs only; recorded in bounds
+    if frac < 1:
+        units = units[:max(1, int(len(units) * frac))]
+        bounds["unit_fraction"] = frac
     col = Collector()
     oos_samples = {}
     for part in pmap_chunks(_work, units, jobs=jobs, chunk=1, extra=(seed,)):
@@ -891,7 +892,7 @@ def run(tier="quick", seed=0, jobs=None):
     bounds["seed"] = seed
     bounds["vocabulary"] = len(VOCAB)
     bounds["documents"] = {k: len(v) for k, v in DOCSETS.items()}
-    return col.result(rule=RULE, exhaustive=True, bounds=bounds, property=PROP, tier=tier,
+    return col.result(rule=RULE, exhaustive=frac >= 1, bounds=bounds, property=PROP, tier=tier,
                       out_of_scope_samples=oos_samples)
 
 
